@@ -139,6 +139,13 @@ Theorem C07_tree_ok_from_root : forall n sl t, NoDup (output n) ->
 Proof. exact tree_ok_from_root. Qed.
 Print Assumptions C07_tree_ok_from_root.
 
+(* the hypotheses above as a verified boolean check; the harness evaluates it (inside
+   Coq) on every generated case, so the theorems apply to each of them *)
+Theorem C07_hypotheses_checker_sound : forall n sl t, hyps_b n sl t = true ->
+  tree_ok n sl t /\ sd_pos (szd n) /\ NoDup (zd_keys (szd n)).
+Proof. exact hyps_b_sound. Qed.
+Print Assumptions C07_hypotheses_checker_sound.
+
 (* utils.MaxCounter: add / discard keep the cached maximum equal to the maximum *)
 Theorem C07_maxcounter_add : forall x m f, mc_inv m f ->
   mc_inv (mc_add x m) (fun y => if Z.eqb y x then S (f y) else f y).
